@@ -9,5 +9,7 @@ META = {"level": "model_checking", "technique": "t", "text": "t", "note": "n"}
 def check(run):
     for fam in ("cert", "ident", "mapping"):
         run.gen("Gen_Struct", consts={"Fam": fam}, tag="Gen_Struct_" + fam)
+    for fam in ("lease", "sig", "offsig", "raddr", "rinfo", "ls", "ls2", "meta", "els"):
+        run.gen("Gen_Struct2", consts={"Fam": fam}, tag="Gen_Struct2_" + fam)
     run.replay_and_judge()
     return vlib.finish(run, "model_checking", RULE, ASSUME)
